@@ -39,7 +39,11 @@ MC_QUICK = {
     "C14": ["queuer", "sticky", "keyp", "rr", "custom"],
     "C15": ["queuer", "drain", "rl", "rr", "keyp"],
 }
-MC_THOROUGH = ["big_queuer", "big_keyp", "big_sticky", "big_rr", "big_rl", "big_custom"]
+MC_THOROUGH = {
+    "C13": ["big_queuer", "big_keyp", "big_custom"],
+    "C14": ["big_sticky", "big_keyp", "big_rr", "big_custom"],
+    "C15": ["big_queuer", "big_rl", "big_rr", "queuer_fixed", "keyp_fixed"],
+}
 # vacuity: each of these must be VIOLATED (the situation is reachable in the closed model)
 REACH = {
     "C13": [("sticky", "NeverStale")],
@@ -76,10 +80,10 @@ def _mc(cfg, workers=4, timeout=600, name=None):
     return res
 
 
-def _reach(cfg, inv):
+def _reach(cfg, inv, pid=""):
     src = open(os.path.join(vlib.SPEC, "MC_Factory_%s.cfg" % cfg)).read()
     head = src.split("INVARIANTS")[0]
-    tmp = "tmp_reach_%s_%s.cfg" % (cfg, inv)
+    tmp = "tmp_reach_%s_%s_%s_%d.cfg" % (pid, cfg, inv, os.getpid())
     with open(os.path.join(vlib.SPEC, tmp), "w") as f:
         f.write(head + "INVARIANTS\n  %s\nCHECK_DEADLOCK FALSE\n" % inv)
     try:
@@ -110,12 +114,10 @@ def _validate_groups(trace, w, pid, v, chunk=400):
     """The batch is validated scenario by scenario (random scenarios in chunks): validate_batch stops after a handful of
     rejected runs, and one noisy scenario must not hide the others."""
     groups, order = {}, []
-    cur, key = None, None
-    nrand = 0
+    cur = None
     for ln in open(trace):
         if ln.startswith('{"a":"reset"'):
             sc = json.loads(ln).get("meta", {}).get("scenario", "")
-            h = "m%08x" % (hash(sc) & 0xffffffff)
             if sc not in groups:
                 groups[sc] = []
                 order.append(sc)
@@ -166,7 +168,7 @@ def run(pid, tier, seed):
     for c in MC_QUICK[pid]:
         mcs.append(_mc("MC_Factory_%s.cfg" % c, workers=4, timeout=600))
     if tier == "thorough":
-        for c in MC_THOROUGH:
+        for c in MC_THOROUGH[pid]:
             mcs.append(_mc("MC_Factory_%s.cfg" % c, workers=6, timeout=1500))
     if pid == "C15":
         mcs.append(vlib.mc_or_die("MC_LeakyBucket", "MC_LeakyBucket_%s.cfg" % ("big" if tier == "thorough" else "small"), workers=4, timeout=1200))
@@ -178,7 +180,7 @@ def run(pid, tier, seed):
         if m["timeout"]:
             log("[M] %s did not finish within its time limit (%d states explored)" % (m["cfg"], m["states"]))
         covered |= {a for a, c in m["coverage"].items() if c > 0}
-    reach = [_reach(c, inv) for c, inv in REACH[pid]]
+    reach = [_reach(c, inv, pid) for c, inv in REACH[pid]]
 
     w = vlib.workdir("factory_" + pid)
     trace = os.path.join(w, "batch.ndjson")
